@@ -15,7 +15,8 @@ def hmac_spec(h, k2, msg):
     return h.spec([b ^ z3.BitVecVal(OPAD, 8) for b in kb] + inner)
 
 
-def ob_encrypt(mlen, idlen):
+def ob_encrypt(mlen, idlen, only_scalar=False):
+    """only_scalar: just the C1 / last-drawn-scalar statement (used by C14: freshness at the call site)"""
     def body(stats):
         c = load_crate(CRATE)
         def run(ctx):
@@ -47,6 +48,8 @@ def ob_encrypt(mlen, idlen):
             K = kdf_spec(h, c1xy + w + idt, mlen + 32)
             c2 = [a ^ b for a, b in zip(mt, K[:mlen])]
             discharge(stats, hy, z3.And([a == b for a, b in zip(out[:65], [z3.BitVecVal(4, 8)] + c1xy)]), "C1 = 04 || xy([r]([H1(ID||03)]P1 + Ppub-e)), r the LAST scalar drawn")
+            if only_scalar:
+                continue
             discharge(stats, hy, z3.And([a == b for a, b in zip(out[97:], c2)]), "C2 = M xor K1, K1||K2 = KDF(C1 || e(Ppub-e,P2)^r || ID, |M|+32), ciphertext = C1 || C3 || C2")
             k2 = K[mlen:mlen + 32]
             discharge(stats, hy, z3.And([a == b for a, b in zip(out[65:97], hmac_spec(h, k2, c2))]), "C3 = HMAC-SM3(K2, C2) [what the library computes]")
@@ -54,7 +57,7 @@ def ob_encrypt(mlen, idlen):
         if not n:
             raise Inconclusive("no returning path")
         return {"paths": len(paths)}
-    return run_obligation("encrypt_msglen_%03d_idlen_%02d" % (mlen, idlen), ["gm_sm9::key::Sm9EncMasterKey::encrypt", "gm_sm9::key::kdf", "gm_sm9::key::sm3_hmac", "gm_sm9::u256::xor"],
+    return run_obligation(("encrypt_scalar_fresh" if only_scalar else "encrypt") + "_msglen_%03d_idlen_%02d" % (mlen, idlen), ["gm_sm9::key::Sm9EncMasterKey::encrypt", "gm_sm9::key::kdf", "gm_sm9::key::sm3_hmac", "gm_sm9::u256::xor"],
                           "message %d bytes, identity %d bytes; all keys, scalars" % (mlen, idlen), body, STUBS)
 
 
